@@ -6,6 +6,7 @@ output that is kept".  No rule looks at a local's name, at the text of a stateme
 whether a block sits in a helper, or at how a loop / a numpy call is spelled."""
 from __future__ import annotations
 
+import ast
 from fractions import Fraction
 
 from . import e2_formula as F
@@ -46,33 +47,26 @@ def _undecided(vals):
     return False
 
 
-# Library routines whose meaning the rules' expected values are written in (or that the engine gives a value to).  An application of anything else inside a value
-# that fails a comparison is an idiom the checker does not know - "np.pad(...)", a method of an object, a ufunc with where= - and the verdict is "not decided".
-KNOWN_CALLS = {
-    "np.mean", "np.sum", "np.cumsum", "np.cumprod", "np.prod", "np.all", "np.any", "np.max", "np.min", "np.amax", "np.amin", "np.argmax", "np.argmin", "np.diff",
-    "np.interp", "interp1d", "signal.lfilter", "signal.upfirdn", "signal.windows.kaiser", "np.sinc", "np.arange", "np.transpose", "np.swapaxes", "np.ravel", "np.searchsorted",
-    "np.nonzero", "np.flatnonzero", "np.log10", "np.log2", "np.sqrt", "np.round", "round", "np.linspace", "np.std", "np.var", "np.median", "np.nanmean", "np.average",
-    "np.expand_dims", "np.column_stack", "np.stack", "np.array_equal", "np.count_nonzero", "np.argsort", "np.sort", "np.repeat", "np.tile", "np.floor", "np.ceil",
-    "math.gcd", "np.gcd", "np.sign", "np.dot", "np.take", "np.squeeze", "np.flatten", "np.reshape", "np.where", "np.argwhere", "np.unique", "np.isnan", "np.isfinite",
-}
+_unrecognised = S.unrecognised
 
 
-def _unrecognised(vals):
-    """names of the applications inside the values that are not library routines the rules know (methods of unknown objects, unknown functions, ufunc keywords)"""
-    out = []
-
-    def pred(n, a):
-        if n.startswith("call:") and n[5:] not in KNOWN_CALLS:
-            out.append(n[5:])
-        elif n in ("kw:where", "kw:out", "kw:initial"):
-            out.append(n)
-        return False
-    for v in vals:
-        if isinstance(v, tuple):
-            out.extend(_unrecognised(list(v)))
-        elif israt(v):
-            find_atoms(v, pred)
-    return sorted(set(out))
+def _defined(ctx):
+    """names that mean something in the two modules (functions, imports, module-level assignments) or are builtins: a call of any other bare name is an undefined name -
+    a definite error at run time, not an idiom the checker does not know"""
+    if getattr(ctx, "_c19_defined", None) is None:
+        import builtins
+        out = set(dir(builtins))
+        for rel in (PSD, DSP):
+            m = ctx.src.mod(rel)
+            out |= {q.split("#")[0].split(".")[0] for q in m.funcs} | S.module_names(ctx, rel) | set(S.module_namedtuples(ctx, rel))
+            for st in m.tree.body:
+                for x in ast.walk(st) if isinstance(st, (ast.Assign, ast.AnnAssign, ast.AugAssign, ast.ClassDef, ast.If, ast.Try)) else ():
+                    if isinstance(x, ast.Name) and isinstance(x.ctx, ast.Store):
+                        out.add(x.id)
+                    elif isinstance(x, (ast.ClassDef, ast.FunctionDef)):
+                        out.add(x.name)
+        ctx._c19_defined = out
+    return ctx._c19_defined
 
 
 def _chk(ctx, ok, msg, where, detail=None, vals=(), **kw):
@@ -80,8 +74,8 @@ def _chk(ctx, ok, msg, where, detail=None, vals=(), **kw):
     if not ok and _undecided(vals):
         ctx.error(msg, where, {"not decided": [_short(v) for v in vals if _undecided([v])][:3], "detail": detail})
         return False
-    if not ok and _unrecognised(vals):
-        ctx.error(msg, where, {"not decided": "the value is built with routines the checker does not know", "routines": _unrecognised(vals)[:6], "detail": detail})
+    if not ok and _unrecognised(vals, _defined(ctx)):
+        ctx.error(msg, where, {"not decided": "the value is built with routines the checker does not know", "routines": _unrecognised(vals, _defined(ctx))[:6], "detail": detail})
         return False
     return ctx.check(ok, msg, where, detail, **kw)
 
@@ -310,13 +304,35 @@ def r1_area(ctx):
         res[arm] = (R, g)
     R, g = res[True]
     seg, cl = g["seg"], g["colloop"]
-    size_forms = [R.E(t) for t in ("Freq.size - 1", "len(Freq) - 1", "Freq.shape[0] - 1")]
-    ok = g["one_seg"] and g["foff"] == [0, 1] and any(eq(seg.n, w) for w in size_forms)
-    ctx.check(ok, "area: every one of the Freq.size - 1 segments is visited (the segment counter runs over 0 .. size - 2 and reads break points k and k + 1)", seg.node,
-              None if ok else {"trip count": _short(seg.n), "offsets read": g["foff"]})
-    ok = all(r[1]["vector"] for r in res.values()) or (cl is not None and g["coloff"] == 0 and eq(cl.n, R.E("PSD.shape[1]")))
-    ctx.check(ok, "area: every PSD column is visited (a loop over all columns, or whole rows of the PSD array at once)", cl.node if cl is not None else seg.node,
-              None if ok else {"trip count": _short(cl.n) if cl is not None else None})
+    # (proc_psd_spec returns the frequencies, one row of PSD values per frequency, and the number of PSD columns: every spelling of the two counts is accepted;
+    #  a count that differs from them by a constant is a violation, one that is written in another way is not decided)
+    size_forms = [R.E(t) for t in ("Freq.size - 1", "len(Freq) - 1", "Freq.shape[0] - 1", "PSD.shape[0] - 1", "len(PSD) - 1")]
+    col_forms = [R.E(t) for t in ("PSD.shape[1]", "npsds", "PSD.shape[-1]", "len(PSD.T)")]
+
+    def count(n, forms, others):
+        """True: n is one of the forms | False: n is one of the forms plus a non-zero constant, or another extent of the two arrays (+ a constant) | None: not decided"""
+        if any(eq(n, w) for w in forms):
+            return True
+        if israt(n) and any(const_of(n - w) is not None for w in list(forms) + list(others) if israt(w)):
+            return False
+        return None
+    other_extents = [R.E(t) for t in ("PSD.shape[2]", "PSD.shape[-2]", "PSD.size", "PSD.ndim", "Freq.ndim")]
+    msg = "area: every one of the Freq.size - 1 segments is visited (the segment counter runs over 0 .. size - 2 and reads break points k and k + 1)"
+    cnt = count(seg.n, size_forms, col_forms + other_extents)
+    if cnt is None and g["one_seg"] and g["foff"] == [0, 1]:
+        ctx.error(msg, seg.node, {"trip count": _short(seg.n)})
+    else:
+        ok = g["one_seg"] and g["foff"] == [0, 1] and cnt is True
+        ctx.check(ok, msg, seg.node, None if ok else {"trip count": _short(seg.n), "offsets read": g["foff"]})
+    msg = "area: every PSD column is visited (a loop over all columns, or whole rows of the PSD array at once)"
+    cnt = count(cl.n, col_forms, size_forms + other_extents) if cl is not None else None
+    if all(r[1]["vector"] for r in res.values()):
+        ctx.ok(msg, seg.node)
+    elif cl is not None and g["coloff"] == 0 and cnt is None:
+        ctx.error(msg, cl.node, {"trip count": _short(cl.n)})
+    else:
+        ok = cl is not None and g["coloff"] == 0 and cnt is True
+        ctx.check(ok, msg, cl.node if cl is not None else seg.node, None if ok else {"trip count": _short(cl.n) if cl is not None else None})
     ok = all(len(r[1]["foff"]) == 2 and r[1]["foff"][1] == r[1]["foff"][0] + 1 and r[1]["poff"] == r[1]["foff"] and r[1]["ncol"] == 1 and r[1]["one_seg"] for r in res.values())
     ctx.check(ok, "area: the segment formulas read the two end points of the segment - consecutive break points k, k + 1 of Freq and rows k, k + 1 of the same PSD column",
               seg.node, None if ok else {"Freq offsets": g["foff"], "PSD row offsets": g["poff"], "PSD columns": g["ncol"]})
@@ -549,10 +565,8 @@ def _last_axis_slice(ix):
     """(..., a:b:s) or a:b:s  ->  (a, b, s) with None for absent"""
     parts = ix_parts(ix)
     if len(parts) == 2 and is_sym(parts[0], "Ellipsis"):
-        parts = parts[1:]
-    if len(parts) != 1:
-        return None
-    return unslice(parts[0])
+        return unslice(parts[1])
+    return None          # (a bare slice addresses the FIRST axis: the last one only for 1-D data, and resample takes data of any dimension)
 
 
 class _Layout:
@@ -576,11 +590,25 @@ def _layout(R, x, ln):
     c = un(x, "cat")
     if c is not None:
         inner, before, total = None, None, F.const(0)
-        for part in c[1:]:
+        def zeros_len(part):
+            """length of a block of zeros (a zero array, or zero arrays concatenated along the same axis); None: not that"""
             if un(part, "zeros") is not None:
                 n = _last_dim(part)
                 if n is None:
                     raise Unsupported("length of the padding")
+                return n
+            cc = un(part, "cat")
+            if cc is not None and eq(cc[0], c[0]):
+                ns = [zeros_len(x) for x in cc[1:]]
+                if all(n is not None for n in ns):
+                    tot = F.const(0)
+                    for n in ns:
+                        tot = tot + n
+                    return tot
+            return None
+        for part in c[1:]:
+            n = zeros_len(part)
+            if n is not None:
                 total = total + n
                 continue
             if inner is not None:
@@ -804,17 +832,17 @@ def r3_resample(ctx):
     firexp = R.E(f"P * signal.windows.kaiser(M + 1, beta) * (2 * {cutoff} * np.sinc(2 * {cutoff} * (np.arange(M + 1) - M / 2)))", P=Pr, Q=Qr, M=M)
     ok = israt(fir) and eq(fir, firexp) and eq(D.den, F.const(1)) and eq(D.axis, F.const(-1))
     if D.routine == "lfilter":
-        if D.pad_back is None:
-            ctx.error("resample: length of the array that is filtered", R.ret_node(), {"buffer": _short(D.buffer)})
-            ok = False
         # (the padding may be concatenated to the stuffed array or be part of the zero buffer the samples are written into: both are read off the array that is filtered)
         ok = ok and eq(D.pad_front, M / 2) and D.pad_back is not None and eq(D.pad_back, M / 2) and (D.cat_axis is None or eq(D.cat_axis, F.const(-1)))
+        if D.pad_back is None:
+            ctx.error("resample: length of the array that is filtered", R.ret_node(), {"buffer": _short(D.buffer)})
+            ok = None
         if D.stop is not None:
             # an explicit stop: ceil((stop - start) / step) samples are retained
             span = D.stop - D.start
             if not (eq(span, R.E("data.shape[-1] * P", P=Pr)) or eq(span, R.E("int(np.ceil(data.shape[-1] * P / Q)) * Q", P=Pr, Q=Qr))):
                 ctx.error("resample: number of samples retained by a slice with an explicit stop", R.ret_node(), _short(span))
-                ok = False
+                ok = None
         msg = ("resample: M // 2 zeros are added at both ends of the stuffed signal before the FIR (gain p, Kaiser-windowed sinc with cut-off min(1/p, 1/q)/2 "
                "centred at M/2) is applied along the last axis - so M samples of lag are removed and ln*p remain")
         dbg = {"front": _short(D.pad_front), "back": _short(D.pad_back), "axis": _short(D.cat_axis), "fir": _short(fir, 200)}
@@ -824,7 +852,8 @@ def r3_resample(ctx):
         msg = ("resample: the FIR (gain p, Kaiser-windowed sinc with cut-off min(1/p, 1/q)/2 centred at M/2) is applied along the last axis and ceil(ln p / q) "
                "samples are retained")
         dbg = {"stop - start": _short(D.stop - D.start) if D.stop is not None else None, "fir": _short(fir, 200)}
-    chk(ok, msg, R.ret_node(), None if ok else dbg)
+    if ok is not None:
+        chk(bool(ok), msg, R.ret_node(), None if ok else dbg)
     mean_ok = _last_axis_mean(R.E("data") - D.signal, R.E("data")) if israt(D.signal) else None
     if mean_ok is None:
         ctx.error("resample: what is removed from the data before filtering (expected: the mean along the last axis)", fn, _short(D.signal))
